@@ -48,6 +48,10 @@ def bases(ctx, tier):
     B["n-generation-only"] = (ops.build(ctx, T, [c("", ["xxh64"], n=True)], expect=[0]), False)
     B["empty-folder"] = (ops.build(ctx, {}, [c("", ["xxh64"])], expect=[0]), True)
     B["three-gens"] = (ops.build(ctx, T, [c("", ["md5"]), c("", ["sha1", "c4"]), c("", ["xxh3"])], expect=[0, 0, 0]), True)
+    # two generations that differ only in the NAME of an entry of the root folder (equal root content hash, different structure
+    # hash): whichever of the two names the tree has now, one of the two recorded roots does not describe it
+    B["root-entry-renamed-between-gens"] = (ops.build(ctx, T, [c("", ["xxh64"]), ["mv", "a.txt", "renamed-a.txt"],
+                                                               c("", ["xxh64"], dr=True)], expect=[0, 0]), True)
     B["sf-generation-after-normal"] = (ops.build(ctx, T, [c("", ["xxh64"]), c("", ["xxh64"], sf=["a.txt"])], expect=[0, 0]), True)
     if tier == "thorough":
         B["all-six-formats"] = (ops.build(ctx, T, [c("", ref.FORMATS_CLI)], expect=[0]), True)
@@ -164,12 +168,18 @@ def main(tier, seed):
         singles = mutations(tree)
         if name == "with-links":   # (a link whose target is gone is another matter: the tool cannot hash it)
             singles = [m for m in singles if not (m[1][0] in ("mv", "rm") and ("d/c.txt" == m[1][1] or "d/c.txt".startswith(m[1][1] + "/")))]
+        if name == "root-entry-renamed-between-gens":   # the rename back: the tree is the one of generation 1 again
+            singles = singles + [("rename renamed-a.txt back to a.txt", ["mv", "renamed-a.txt", "a.txt"])]
         sets = [[]] + [[m] for m in singles]
         if tier == "thorough":
             sets += [list(c) for c in itertools.combinations(singles, 2)]
         # an explicit -h FORMAT: every recorded format (quick: on the bases whose root history recorded two formats)
         hopts = [None] + (recorded_root_formats(tree) if tier == "thorough" or name in ("subdirs-2formats-1gen", "two-gens-different-formats")
                           else [])
+        if name == "root-entry-renamed-between-gens":
+            # the untouched tree is not judged here: it differs from the root recorded by generation 1 and the tool, which compares
+            # the root with every generation, answers 12 - the check's "exit 0 when nothing changed" rule speaks about one sealed state
+            sets = sets[1:]
         for ms in sets:
             t = tree
             try:
